@@ -20,4 +20,14 @@ Definition mon_pool : monitor_t := fun suite i o =>
         else Some (V_eqb a b)
     | _ => Some false
     end
+  else if name_is suite "pool.ops" then
+    (* every buffer handed out is empty; one that came from a Put had a capacity within the
+       recycling bound (the model's [pool_put] does not keep larger ones) *)
+    Some (forallb (fun g =>
+            (vz (vnth 0 g) =? 0) &&
+            ((vz (vnth 2 g) <? 0) ||
+             match nth_error (vl i) (Z.to_nat (vz (vnth 2 g))) with
+             | Some op => Nat.eqb (length (pool_put [] (mkPbuf 0 (vz (vnth 0 op)) []))) 1
+             | None => false
+             end)) (vl o))
   else None.
